@@ -165,6 +165,21 @@ impl SipRewriter {
             return vec![rule.clone()];
         }
 
+        // A wildcard in a positive atom is an anonymous variable: every stored value of that
+        // column is a different binding of the body (aggregates count them). The SIP
+        // intermediates are projections onto the atom's *variables*, so give each wildcard a
+        // fresh variable name first; otherwise rows that differ only in a wildcard column
+        // collapse in the intermediate relation and `count`/`sum`/`avg` come out too small.
+        for (atom_idx, pred) in atoms.iter_mut().enumerate() {
+            if let BodyPredicate::Positive(atom) = pred {
+                for (arg_idx, term) in atom.args.iter_mut().enumerate() {
+                    if matches!(term, Term::Placeholder) {
+                        *term = Term::Variable(format!("_sipw{rule_idx}_{atom_idx}_{arg_idx}"));
+                    }
+                }
+            }
+        }
+
         // Compute core atom bitmap
         let is_core = Self::compute_core_atom_bitmap(&atoms);
         let core_ids: Vec<usize> = is_core
